@@ -162,9 +162,13 @@ func c05Sources(r *Run) []shapes.Src {
 		return []shapes.Src{*r.Replay.Src}
 	}
 	if !r.Thorough() {
-		return append(append(shapes.EnumSrcs(4, 3), shapes.UniformSrcs(2)...), shapes.ReuseSrcs(3)...)
+		srcs := append(append(shapes.EnumSrcs(4, 3), shapes.UniformSrcs(2)...), shapes.ReuseSrcs(3)...)
+		srcs = append(srcs, shapes.DeepSrcs([]int{0, 2}, false)...)
+		return append(srcs, shapes.DeepSrcs([]int{0, 2}, true)...)
 	}
 	srcs := append(append(shapes.EnumSrcs(5, 3), shapes.UniformSrcs(3)...), shapes.ReuseSrcs(4)...)
+	srcs = append(srcs, shapes.DeepSrcs([]int{0, 1, 2}, false)...)
+	srcs = append(srcs, shapes.DeepSrcs([]int{0, 1, 2}, true)...)
 	for i, f := range randomForests(2000, 6, 8, 3, 20261003) {
 		sig := shapes.Sig(f)
 		off := shapes.SigOffset(sig, 8)
